@@ -245,6 +245,119 @@ t("twin-w3c-anchored-match", "C20", W3C, 'NCNAME_RE = re.compile(f"^{NCNAME_PATT
 t("twin-w3c-anchored-match-used", "C20", W3C, 'NCNAME_RE = re.compile(f"^{NCNAME_PATTERN}$")\n', 'NCNAME_RE = re.compile(rf"\\A{NCNAME_PATTERN}\\Z")\nNCNAME_MATCH = NCNAME_RE.match\n')
 
 
+b("init-strict-default-false", "C04", API, "self, records: Iterable[Record], *, delimiter: str = \":\", strict: bool = True\n", "self, records: Iterable[Record], *, delimiter: str = \":\", strict: bool = False\n", "C04-D1")
+b("shacl-select-swapped", "C14", API, "SELECT ?curie_prefix ?uri_prefix ?pattern", "SELECT ?uri_prefix ?curie_prefix ?pattern", "C14-D6")
+b("shacl-pattern-not-optional", "C14", API, "OPTIONAL { ?bnode2 sh:pattern ?pattern . }", "?bnode2 sh:pattern ?pattern .", "C14-D6")
+b("tsv-prefix-map-items", "C14", API, "        for record in converter.records:\n            writer.writerow((record.prefix, record.uri_prefix))\n", "        writer.writerows(converter.prefix_map.items())\n", "C14-D5")
+t("twin-tsv-writerows-comp", "C14", API, "        for record in converter.records:\n            writer.writerow((record.prefix, record.uri_prefix))\n", "        writer.writerows((record.prefix, record.uri_prefix) for record in converter.records)\n")
+t("twin-tsv-bimap-items", "C14", API, "        for record in converter.records:\n            writer.writerow((record.prefix, record.uri_prefix))\n", "        writer.writerows(converter.bimap.items())\n")
+b("file-helper-header-ignored", "C16", API, "_header = next(reader) if header else None", "_header = next(reader)", "C16-D4")
+b("jsonld-colon-keys-skipped", "C13 C14", API, '            if key.startswith("@"):\n                continue\n', '            if key.startswith("@"):\n                continue\n            if ":" in key:\n                continue\n', "C13-D5 C14-D2")
+b("predicates-default-always", "C18", MSA, "    if predicates is None:\n        return {OWL.sameAs}\n    if isinstance(predicates, str):\n        return {URIRef(predicates)}\n    return {URIRef(predicate) for predicate in predicates}", "    if predicates is None:\n        return {OWL.sameAs}\n    if isinstance(predicates, str):\n        return {OWL.sameAs, URIRef(predicates)}\n    return {URIRef(predicate) for predicate in predicates}", "C18-D7")
+b("w3c-strip-rebind", "C20", W3C, "    if not curie.strip():\n        return False\n", "    curie = curie.strip()\n    if not curie:\n        return False\n", "C20-D3")
+b("w3c-unicode-word", "C20", W3C, 'NCNAME_PATTERN = r"[A-Za-z_][A-Za-z0-9\\.\\-_]*"', 'NCNAME_PATTERN = r"[^\\W\\d][\\w\\.\\-]*"', "C20-D1")
+b("expand-from-curie-fallback", "C08", API, "        if strict:\n            raise ExpansionError(curie)\n        if passthrough:\n            return curie\n        return None\n\n    # docstr-coverage:excused `overload`\n    @overload\n    def expand_all(", "        return self.expand_reference(\n            ReferenceTuple.from_curie(curie, sep=self.delimiter), strict=strict, passthrough=passthrough\n        )\n\n    # docstr-coverage:excused `overload`\n    @overload\n    def expand_all(", "C08-D1")
+b("lt-via-curie", "C15", API, "        return self.pair < other.pair", "        return self.curie < other.curie", "C15-D2")
+b("config-strip-whitespace", "C15", API, "    model_config = ConfigDict(frozen=True)\n\n    @model_validator(mode=\"before\")", "    model_config = ConfigDict(frozen=True, str_strip_whitespace=True)\n\n    @model_validator(mode=\"before\")", "C15-D4")
+
+
+def apply_unified_diff(files: dict, diff_text: str) -> dict | None:
+    """Apply a unified diff (git format, paths a/src/curies/...) to an in-memory tree; None if it does not fit."""
+    import re as _re
+
+    out = dict(files)
+    cur = None
+    hunks: list = []
+    blocks: dict[str, list] = {}
+    for line in diff_text.splitlines():
+        if line.startswith("+++ "):
+            path = line[4:].strip()
+            path = path[2:] if path.startswith(("a/", "b/")) else path
+            cur = path.replace("src/curies/", "", 1)
+            blocks[cur] = []
+        elif line.startswith("--- ") or line.startswith("diff ") or line.startswith("index "):
+            continue
+        elif line.startswith("@@") and cur is not None:
+            m = _re.match(r"@@ -(\d+)", line)
+            blocks[cur].append({"start": int(m.group(1)) if m else 1, "old": [], "new": []})
+        elif cur is not None and blocks.get(cur):
+            h = blocks[cur][-1]
+            if line.startswith("+"):
+                h["new"].append(line[1:])
+            elif line.startswith("-"):
+                h["old"].append(line[1:])
+            elif line.startswith(" ") or line == "":
+                h["old"].append(line[1:])
+                h["new"].append(line[1:])
+            elif line.startswith("\\"):
+                continue
+    for path, hs in blocks.items():
+        if path not in out:
+            return None
+        lines = out[path].split("\n")
+        offset = 0
+        for h in hs:
+            old, new = h["old"], h["new"]
+            pos = h["start"] - 1 + offset
+            found = None
+            for delta in [0] + [d for k in range(1, 400) for d in (k, -k)]:
+                q = pos + delta
+                if 0 <= q <= len(lines) - len(old) and lines[q : q + len(old)] == old:
+                    found = q
+                    break
+            if found is None:
+                return None
+            lines[found : found + len(old)] = new
+            offset += len(new) - len(old)
+        out[path] = "\n".join(lines)
+    return out
+
+
+def seeded_variants() -> list[dict]:
+    """The confirmed seeded changes under /verif/seeded/<id>/ as extra breaking variants."""
+    import json
+    import pathlib
+
+    root = pathlib.Path(__file__).resolve().parent.parent / "seeded"
+    out = []
+    if not root.is_dir():
+        return out
+    for d in sorted(root.iterdir()):
+        pf = d / "patch.diff"
+        if not pf.exists():
+            continue
+        prop = d.name.split("-")[0]
+        try:
+            meta = json.loads((d / "meta.json").read_text())
+            prop = meta.get("property") or prop
+        except Exception:  # noqa: BLE001
+            pass
+        out.append({"id": f"seeded/{d.name}", "prop": prop, "diff": pf.read_text()})
+    return out
+
+
+def _run_seeded(args):
+    sv, files = args
+    from . import props  # noqa: F401
+    from .model import AnalysisError, Model
+    from .report import Cx, evaluate
+
+    new_files = apply_unified_diff(files, sv["diff"])
+    if new_files is None:
+        return {"id": sv["id"], "kind": "breaking", "props": [sv["prop"]], "status": "not-applicable", "detail": "patch does not fit the current tree"}
+    try:
+        model = Model(new_files)
+    except AnalysisError as e:
+        return {"id": sv["id"], "kind": "breaking", "props": [sv["prop"]], "status": "not-applicable", "detail": e.reason}
+    obs = evaluate(sv["prop"], Cx(model, "quick"))
+    st = {o.id: o.status for o in obs if o.status != "HOLDS"}
+    ok = any(v == "VIOLATED" for v in st.values())
+    r = {"id": sv["id"], "kind": "breaking", "props": [sv["prop"]], "obligations": {sv["prop"]: st}, "status": "met" if ok else "UNMET"}
+    if not ok:
+        r["unmet"] = [f"{sv['prop']}: seeded change not reported (got {st})"]
+    return r
+
+
 def _run_one(args):
     """Evaluate one variant in a worker process: returns a result dict."""
     vid, files = args
@@ -294,11 +407,13 @@ def run_matrix(prop: str | None, jobs: int | None = None):
     results = []
     jobs = jobs or min(16, os.cpu_count() or 4)
     args = [(v.id, files) for v in todo]
-    if len(todo) <= 2 or jobs <= 1:
-        results = [_run_one(a) for a in args]
+    seeded = [sv for sv in seeded_variants() if prop is None or sv["prop"] == prop]
+    sargs = [(sv, files) for sv in seeded]
+    if len(todo) + len(seeded) <= 2 or jobs <= 1:
+        results = [_run_one(a) for a in args] + [_run_seeded(a) for a in sargs]
     else:
         with ProcessPoolExecutor(max_workers=jobs) as ex:
-            results = list(ex.map(_run_one, args, chunksize=2))
+            results = list(ex.map(_run_one, args, chunksize=2)) + list(ex.map(_run_seeded, sargs, chunksize=1))
     if prop is not None:
         # restrict reporting to this property's part of each variant
         for r in results:
